@@ -54,6 +54,15 @@ CHECKS = {
  "C16": ("proptest generated rope construction programs + exhaustive enumeration of small programs; oracle: flat String model",
          "Every observer of Rope compared with the String it stands for; all slice ranges of every generated rope; std's UB checks on (checked profile).",
          "Trusts model::rope_prog."),
+ "C17": ("proptest generated mappings strings, mutated JSON bytes and wild source trees on two build profiles; thorough: libFuzzer+ASan targets decode/json/tree_prog; oracle: totality (no panic, parsers agree on accept/reject)",
+         "Every public entry point is driven with in-domain but hostile input on the overflow-checked build and again on the release-semantics build; coverage-guided campaigns extend the byte-level legs in the thorough tier.",
+         "A watchdog (300 s per case) turns a hang into exit 2 (inconclusive), never into a violation; known finding W2 is tolerated only in its exact shape and signature."),
+ "C18": ("generated (program, schedule) pairs under a harness-owned cooperative scheduler driven through cfg-guarded schedule points; random schedules plus exhaustive enumeration of all schedules with <=2 preemptions per generated program; oracle: single-threaded twin, deadlock detection, write-once cache hook",
+         "The schedule is the generated input: real threads run strictly one at a time and switch only at the library's shared-state accesses, lock acquisitions and callbacks into a user-defined child source. Exhaustive for the bounded-preemption schedules of each explored program, exploration over programs.",
+         "Atomicity is assumed below the granularity of the schedule points (inside DashMap, OnceLock, Mutex, Arc); weak-memory reorderings are out of reach (the crate uses SeqCst and locks only)."),
+ "C19": ("the generators of C16, C01/C17 and C18 run with guarded precondition assertions before each of the 14 unsafe operations, std's unsafe-precondition checks, on two build profiles; thorough: libFuzzer targets rope_prog / tree_prog under AddressSanitizer",
+         "Every generated program respected every stated precondition; borrowed chunks, names and contents are kept until the stream call returned (and, for schedules, until all threads finished) and then read.",
+         "Absence of undefined behaviour is not established by testing; Miri is outside this technique family and not used."),
  "C20": ("proptest generated one-edit pairs filtered by an observable difference; cross-process / cross-thread hash comparison",
          "Hash sensitivity to every ingredient at every depth, and reproducibility of the hash in a freshly spawned process.",
          "A single 64-bit collision would be reported as such (second hasher)."),
